@@ -17,8 +17,10 @@ import Mathlib.Analysis.SpecialFunctions.Artanh
 import Mathlib.Analysis.SpecialFunctions.Pow.Deriv
 import Mathlib.Analysis.SpecialFunctions.Sqrt
 import Mathlib.Analysis.Calculus.Deriv.Abs
+import Mathlib.Analysis.Calculus.FDeriv.Pi
 import PorepyVerif.C01.Generated
 
+set_option linter.unusedSimpArgs false
 namespace PorepyVerif.C01
 open Real
 
@@ -137,5 +139,141 @@ theorem heavisideR_hasDerivAt {x z : ℝ} (hx : x ≠ 0) : HasDerivAt (fun t => 
     filter_upwards [Ioi_mem_nhds h] with y hy
     have hy' : 0 < y := hy
     simp [heavisideR, not_lt.mpr hy'.le, hy'.ne']
+
+theorem fderiv2_of {F : ℝ → ℝ → ℝ} {G : ℝ × ℝ → ℝ} {L : ℝ × ℝ →L[ℝ] ℝ} {x y a b : ℝ}
+    (h : HasFDerivAt G L (x, y)) (hG : ∀ p : ℝ × ℝ, F p.1 p.2 = G p) (ha : L (1, 0) = a) (hb : L (0, 1) = b) :
+    HasFDerivAt (fun p : ℝ × ℝ => F p.1 p.2)
+      (a • ContinuousLinearMap.fst ℝ ℝ ℝ + b • ContinuousLinearMap.snd ℝ ℝ ℝ) (x, y) := by
+  have hf : (fun p : ℝ × ℝ => F p.1 p.2) = G := funext hG
+  rw [hf]
+  refine h.congr_fderiv ?_
+  ext
+  · simp [ha]
+  · simp [hb]
+
+/-! ### AD programs on vectors over ℝ
+
+Rows are indexed by `ℕ` (an AdArray of size m uses rows 0..m-1; size bookkeeping and the size errors of the
+code are part of the Float model `Tree.evalF`, not of the calculus statement).  The independent variables are
+`X : Fin n → ℝ` (all variables of `initAdArrays` jointly). -/
+
+abbrev Pt (n : Nat) := Fin n → ℝ
+
+/-- a Jacobian row read as a linear functional -/
+noncomputable def lin {n : Nat} (g : Fin n → ℝ) : Pt n →L[ℝ] ℝ :=
+  ∑ j, g j • ContinuousLinearMap.proj (R := ℝ) (φ := fun _ : Fin n => ℝ) j
+
+theorem lin_apply {n : Nat} (g : Fin n → ℝ) (Y : Pt n) : lin g Y = ∑ j, g j * Y j := by
+  simp [lin, sum_apply]
+
+theorem lin_single {n : Nat} (k : Fin n) :
+    lin (Pi.single k (1 : ℝ)) = ContinuousLinearMap.proj (R := ℝ) (φ := fun _ : Fin n => ℝ) k := by
+  ext Y
+  simp [lin_apply, Pi.single_apply]
+
+theorem lin_zero {n : Nat} : lin (fun _ : Fin n => (0 : ℝ)) = 0 := by
+  ext Y; simp [lin_apply]
+
+theorem lin_smul {n : Nat} (d : ℝ) (g : Fin n → ℝ) : lin (fun j => d * g j) = d • lin g := by
+  ext Y; simp [lin_apply, Finset.mul_sum, mul_assoc]
+
+theorem lin_add_smul {n : Nat} (d₁ d₂ : ℝ) (g h : Fin n → ℝ) :
+    lin (fun j => d₁ * g j + d₂ * h j) = d₁ • lin g + d₂ • lin h := by
+  ext Y; simp [lin_apply, Finset.mul_sum, mul_assoc, add_mul, Finset.sum_add_distrib]
+
+theorem lin_sum {n : Nat} (s : Finset ℕ) (m : ℕ → ℝ) (g : ℕ → Fin n → ℝ) :
+    lin (fun j => ∑ k ∈ s, m k * g k j) = ∑ k ∈ s, m k • lin (g k) := by
+  ext Y
+  simp [lin_apply, sum_apply, Finset.mul_sum, Finset.sum_mul, mul_assoc]
+  rw [Finset.sum_comm]
+
+/-- one row of an AdArray: value and gradient -/
+structure Dual (n : Nat) where
+  v : ℝ
+  g : Fin n → ℝ
+
+/-- `tol` of `l2_norm` -/
+noncomputable def l2tol : ℝ := 1 / 10 ^ 12
+
+inductive Expr (n : Nat) where
+  /-- an AdArray of `initAdArrays` (or any row selection of the identity): row i is the variable `idx i` -/
+  | var (idx : ℕ → Fin n)
+  /-- a numpy array / broadcast scalar used as an operand of `maximum` -/
+  | const (c : ℕ → ℝ)
+  /-- row-wise rule `r` with constant operand or parameter `c i` (python scalar: `c` constant; numpy array: its
+      entries); `F` = what the operation means on numbers -/
+  | map1 (r : Rule) (F : ℝ → ℝ → ℝ) (c : ℕ → ℝ) (e : Expr n)
+  /-- row-wise rule between two AdArrays -/
+  | map2 (r : Rule) (F : ℝ → ℝ → ℝ) (e₁ e₂ : Expr n)
+  /-- `M @ e` for a (sparse) matrix with `cols` columns -/
+  | matmul (M : ℕ → ℕ → ℝ) (cols : ℕ) (e : Expr n)
+  /-- `e[key]`, `idx` = the rows selected -/
+  | slice (idx : ℕ → ℕ) (e : Expr n)
+  /-- `l2_norm(dim, e)`, dim ≥ 2 branch -/
+  | l2norm (dim : ℕ) (e : Expr n)
+  /-- `maximum(e₁, e₂)` -/
+  | maximum (e₁ e₂ : Expr n)
+
+/-- plain evaluation (what numpy computes for the same expression) -/
+noncomputable def Expr.den {n : Nat} : Expr n → Pt n → ℕ → ℝ
+  | .var idx, X, i => X (idx i)
+  | .const c, _, i => c i
+  | .map1 _ F c e, X, i => F (e.den X i) (c i)
+  | .map2 _ F e₁ e₂, X, i => F (e₁.den X i) (e₂.den X i)
+  | .matmul M cols e, X, i => ∑ k ∈ Finset.range cols, M i k * e.den X k
+  | .slice idx e, X, i => e.den X (idx i)
+  | .l2norm dim e, X, i => √(∑ k ∈ Finset.range dim, (e.den X (dim * i + k)) ^ 2)
+  | .maximum e₁ e₂, X, i => max (e₁.den X i) (e₂.den X i)
+
+/-- forward-mode evaluation as the code does it: values by the rules' value expressions, Jacobian rows by
+    `diag(dself) @ jac (+ diag(dother) @ other.jac)`, `M @ jac`, row selection, `norm_jac * jac`, row choice. -/
+noncomputable def Expr.ad {n : Nat} : Expr n → Pt n → ℕ → Dual n
+  | .var idx, X, i => ⟨X (idx i), Pi.single (idx i) 1⟩
+  | .const c, _, i => ⟨c i, fun _ => 0⟩
+  | .map1 r _ c e, X, i =>
+      let d := e.ad X i
+      ⟨r.val.evalR [d.v, c i], fun j => r.dself.evalR [d.v, c i] * d.g j⟩
+  | .map2 r _ e₁ e₂, X, i =>
+      let a := e₁.ad X i
+      let b := e₂.ad X i
+      ⟨r.val.evalR [a.v, b.v],
+       fun j => r.dself.evalR [a.v, b.v] * a.g j + (r.dother.getD (.const 0)).evalR [a.v, b.v] * b.g j⟩
+  | .matmul M cols e, X, i =>
+      ⟨∑ k ∈ Finset.range cols, M i k * (e.ad X k).v, fun j => ∑ k ∈ Finset.range cols, M i k * (e.ad X k).g j⟩
+  | .slice idx e, X, i => e.ad X (idx i)
+  | .l2norm dim e, X, i =>
+      let nrm := √(∑ k ∈ Finset.range dim, ((e.ad X (dim * i + k)).v) ^ 2)
+      ⟨nrm, fun j => ∑ k ∈ Finset.range dim,
+        (if nrm > l2tol then (e.ad X (dim * i + k)).v / nrm else 1) * (e.ad X (dim * i + k)).g j⟩
+  | .maximum e₁ e₂, X, i => if (e₂.ad X i).v > (e₁.ad X i).v then e₂.ad X i else e₁.ad X i
+
+/-- every rule's value expression means the operation `F` attached to the node (a property of the tree alone) -/
+def Expr.ValSpec {n : Nat} : Expr n → Prop
+  | .var _ => True
+  | .const _ => True
+  | .map1 r F _ e => e.ValSpec ∧ ∀ x c, r.val.evalR [x, c] = F x c
+  | .map2 r F e₁ e₂ => e₁.ValSpec ∧ e₂.ValSpec ∧ ∀ x y, r.val.evalR [x, y] = F x y
+  | .matmul _ _ e => e.ValSpec
+  | .slice _ e => e.ValSpec
+  | .l2norm _ e => e.ValSpec
+  | .maximum e₁ e₂ => e₁.ValSpec ∧ e₂.ValSpec
+
+/-- at the point `X` every rule application is at a point where its Jacobian factor(s) are the derivative of
+    the node's operation (provided by the `rule_sound_*` theorems on the rule's domain), every `l2_norm` row is
+    above the code's tolerance and no `maximum` row is tied -/
+def Expr.Smooth {n : Nat} : Expr n → Pt n → Prop
+  | .var _, _ => True
+  | .const _, _ => True
+  | .map1 r F c e, X => e.Smooth X ∧
+      ∀ i, HasDerivAt (fun t => F t (c i)) (r.dself.evalR [e.den X i, c i]) (e.den X i)
+  | .map2 r F e₁ e₂, X => e₁.Smooth X ∧ e₂.Smooth X ∧
+      ∀ i, HasFDerivAt (fun p : ℝ × ℝ => F p.1 p.2)
+        (r.dself.evalR [e₁.den X i, e₂.den X i] • ContinuousLinearMap.fst ℝ ℝ ℝ
+          + (r.dother.getD (.const 0)).evalR [e₁.den X i, e₂.den X i] • ContinuousLinearMap.snd ℝ ℝ ℝ)
+        (e₁.den X i, e₂.den X i)
+  | .matmul _ _ e, X => e.Smooth X
+  | .slice _ e, X => e.Smooth X
+  | .l2norm dim e, X => e.Smooth X ∧ ∀ i, l2tol < √(∑ k ∈ Finset.range dim, (e.den X (dim * i + k)) ^ 2)
+  | .maximum e₁ e₂, X => e₁.Smooth X ∧ e₂.Smooth X ∧ ∀ i, e₁.den X i ≠ e₂.den X i
 
 end PorepyVerif.C01
